@@ -97,7 +97,7 @@ def run(ctx, res):
                 'x config file set or not x hint present or not; each followed by a real CLOSE request; non-trivial = distinct (kind, version, outcome, parameter shape)' % len(VERSIONS))
     cases = []
     outcomes = ['ret', 'provider', 'other']
-    nvar = 2 if ctx.tier == 'quick' else 12
+    nvar = 2 if ctx.tier == 'quick' else 80
     for kind in ('meta', 'data'):
         for v in VERSIONS:
             for oc in outcomes:
